@@ -1,5 +1,6 @@
 (* C13 — shape algebra agrees with execution *)
 open Model
+type string = Stdlib.String.t  (* Model defines Coq's string inductive; keep OCaml's name *)
 open Proto
 
 let () =
